@@ -381,6 +381,16 @@ func (r *EngineRunner) crashLines(f []string, emit func(line, res string)) {
 			}
 			r.crashOracle(k, oc, res, d1, d2)
 			emit(fmt.Sprintf("E crashat %d %s %s", k, cut, strings.Join(cfg, " ")), res)
+			if cut == "none" && r.crashProp == "C07" && d1 != nil {
+				// later histories: the recovered database deletes a key and merges again (a left-over
+				// merge directory must be discarded), then restarts twice
+				if err := r.shadow.materialize(k, r.dir(), root, cutf); err == nil {
+					line, res := r.continueMerge(k, root, cfg, d1)
+					emit(line, res)
+				}
+				_ = os.RemoveAll(root)
+				_ = os.MkdirAll(root, 0755)
+			}
 			if cut == "none" && r.crashProp == "C04" && d1 != nil {
 				// "all later histories": a new process commits one more batch on the crashed
 				// image; after the next restart exactly that batch has been added
@@ -437,6 +447,69 @@ func (r *EngineRunner) continueImage(k int, root string, cfg []string, d1 map[st
 		r.fail("C04", "crash after %d events, then one more committed batch (id %d) and a clean restart: the mapping is not the recovered one plus that batch (a crashed batch became visible in part or as a whole): %s", k, id, why)
 	}
 	return fmt.Sprintf("ok %d %s", id, digestMap(d))
+}
+
+// continueMerge: open the crash image, delete the smallest key, Merge, close, open, dump, close,
+// open, dump.  Both dumps must be the recovered mapping without that key.
+func (r *EngineRunner) continueMerge(k int, root string, cfg []string, d1 map[string][]byte) (string, string) {
+	saved1, saved2, saved3 := fio.VerifEvent, kv.VerifFsEvent, kv.VerifMergeFile
+	fio.VerifEvent, kv.VerifFsEvent = nil, nil
+	var order []string
+	kv.VerifMergeFile = func(id uint32) { order = append(order, fmt.Sprintf("%d", id)) }
+	defer func() { fio.VerifEvent, kv.VerifFsEvent, kv.VerifMergeFile = saved1, saved2, saved3 }()
+	keys := make([]string, 0, len(d1))
+	for kk := range d1 {
+		keys = append(keys, kk)
+	}
+	sort.Strings(keys)
+	keyTok := "-"
+	var key []byte
+	if len(keys) > 0 {
+		key = []byte(keys[0])
+		keyTok = Obs(key)
+	}
+	line := fmt.Sprintf("E crashmerge %d none %s %s", k, strings.Join(cfg, " "), keyTok)
+	opts := parseOpts(cfg, filepath.Join(root, "db"))
+	db, err := kv.Open(opts)
+	if err != nil {
+		return line, "err " + EngErr(err)
+	}
+	want := make(map[string][]byte, len(d1))
+	for kk, v := range d1 {
+		want[kk] = v
+	}
+	if key != nil {
+		if err := db.Delete(key); err != nil {
+			_ = db.Close()
+			return line, "err delete " + EngErr(err)
+		}
+		delete(want, string(key))
+	}
+	merr := db.Merge()
+	_ = db.Close()
+	res := "ok"
+	if merr != nil {
+		res = "err " + EngErr(merr)
+	}
+	res += " order " + strings.Join(order, ",")
+	for round := 1; round <= 2; round++ {
+		db, err = kv.Open(opts)
+		if err != nil {
+			r.fail("C07", "crash after %d events, then Delete, Merge and restart %d: Open failed: %s", k, round, EngErr(err))
+			return line, res + " err " + EngErr(err)
+		}
+		d, derr := dumpDB(db)
+		_ = db.Close()
+		if derr != nil {
+			r.fail("C07", "crash after %d events, then Delete, Merge and restart %d: dump failed: %s", k, round, EngErr(derr))
+			return line, res + " err dump"
+		}
+		if why, ok := sameMap(want, d); !ok {
+			r.fail("C07", "crash after %d events, then Delete(%s), Merge and restart %d: the mapping is not the recovered one without that key (left-overs of the interrupted merge became visible?): %s", k, keyTok, round, why)
+		}
+		res += " " + digestMap(d)
+	}
+	return line, res
 }
 
 var _ = bytes.Equal
